@@ -186,7 +186,7 @@ func c15Run(o *out, input string) {
 	}()
 	e.mu.Lock()
 	defer e.mu.Unlock()
-	gs := w.Header().Get("Grpc-Status")
+	gs := w.Result().Header.Get("Grpc-Status") // (the header as it went out)
 	if gs == "" {
 		gs = w.Result().Trailer.Get("Grpc-Status")
 	}
